@@ -27,4 +27,5 @@ def run(tier, seed):
     from bounded import text_bounded as tb
     from bounded.core import attach
     attach(ctx, tb.run((PID,), tier, seed))
-    return finish(ctx, LEVEL)
+    from runner.core import companion_replayer
+    return finish(ctx, LEVEL, replayers=[(r'(reconstruct|check_strings|add_failures|write_file|check_binary_file)', companion_replayer(ctx, ('C15.',)))])
